@@ -7,6 +7,66 @@ import world_common as wc
 MON = ["faithful", "history", "journal", "store_immutable", "fault_reported", "no_error"]
 
 
+def putn_bytes(n, b):
+    return "".join(chr(ord("a") + (i * 7 + b) % 26) for i in range(n))
+
+
+def mon_shrunk(steps, meta):
+    """the source is truncated by another process while it is being copied: whatever length the version gets, every
+    byte of it must have been in the source (a prefix of the content the copy started from), nothing invented"""
+    old = meta["old"]
+    dumps = [st.dump for st in steps if st.dump is not None]
+    if len(dumps) < 2:
+        return None
+    pre, last = dumps[0], dumps[-1]
+    for p, e in last.items():
+        if p.startswith("/k/store/") and e[0] == "file" and p not in pre:
+            c = wk.content(e)
+            if c is None:
+                return "version %s is too large to judge (%s bytes)" % (p, e[2])
+            if c != old[:len(c)]:
+                return ("the source shrank from %d to %d bytes during the copy; the version has %d bytes that are not a prefix of what the source held "
+                        "(first difference at byte %d)" % (len(old), meta["n"], len(c), next(i for i in range(len(c)) if i >= len(old) or c[i] != old[i])))
+    return None
+
+
+wk.MONITORS["shrunk"] = mon_shrunk
+
+
+def shrink_phase(rep, exe_impl, exe_model):
+    """implementation only (the model has no concurrent writer): the source is truncated at a sendfile boundary"""
+    rng = random.Random(rep.seed + 5)
+    cases = []
+    A = wc.WATCH + "/inc/a.txt"
+    for i in range(24 if rep.tier == "quick" else 300):
+        size = rng.choice([2000, 3000, 4000])
+        b = rng.randint(0, 25)
+        s = wc.Script()
+        wc.setup_world(s, wc.base_cfg(deb=0))
+        s.putn(A, size, b)
+        s.start()
+        s.add("chunk 1000")
+        s.write(7, A)
+        s.dump()
+        base = s.text()
+        steps, res = wk.count_calls(exe_impl, base.split("\n") + ["timeout"]) if i == 0 else (None, None)
+        if i == 0:
+            names = res[-1][1] if res else []
+            sf = [k for k, c in enumerate(names) if c.startswith("sendfile")]
+        if not sf:
+            break
+        k = rng.choice(sf[1:] or sf)
+        n = rng.choice([0, 1, 500, 999, 1000, 1001, 1500])
+        s.oracle("shrink", k, n)
+        s.timeout()
+        s.dump()
+        cases.append(("s%d" % i, s.text(), {"old": putn_bytes(size, b), "n": n}))
+    if not cases:
+        return False, 0, 0
+    f, v = wk.run_cases(rep, exe_impl, None, cases, ["shrunk", "fault_reported"], what="shrinking source")
+    return f, v, len(cases)
+
+
 def main(rep):
     rng = random.Random(rep.seed)
     n = 200 if rep.tier == "quick" else 4000
@@ -19,11 +79,11 @@ def main(rep):
         # inside one timestamp) and across restarts
         t, m = wc.gen_history_case(rng)
         cases.append(("h%d" % i, t, m))
-    wk.standard_main(rep, cases=cases, monitors=MON,
+    wk.standard_main(rep, cases=cases, monitors=MON, extra=shrink_phase,
                      rule=("three files per history with sizes from {0,1,2,4095,4096,4097,12345,70000}, sendfile chunk limits {none,1000,4095,4096,4097,65536}, "
                            "and between the write and the copy: nothing, rewritten, grown, deleted, replaced by a directory, made unreadable (real EACCES: the "
                            "driver runs unprivileged); monitors: every new version equals its source byte for byte (length + hash), an abandoned copy leaves no "
-                           "file and no empty directory, journal labels stored/deleted/forbidden match what appeared; plus append histories of a history path (slices of 0-60 bytes, several versions inside one "
+                           "file and no empty directory, journal labels stored/deleted/forbidden match what appeared; a source truncated by another process at a sendfile boundary (implementation only): the version is a prefix of what the source held; plus append histories of a history path (slices of 0-60 bytes, several versions inside one "
                            "timestamp, restarts): the versions in order concatenate to the file up to the remembered position"))
 
 
